@@ -19,7 +19,11 @@ def make_functor(gens, seed):
     for b in gens:
         shape = (2,) * (len(b.dom) + len(b.cod))
         ar[b] = rng.randint(-2, 3, size=shape or (1,)).astype(float)
-    return tensor.Functor({Ty('x'): 2, Ty('y'): 2}, ar)
+    ob = {Ty('x'): 2, Ty('y'): 2}
+    for b in gens:
+        for o in list(b.dom) + list(b.cod):
+            ob.setdefault(Ty(o.name), 2)       # every atomic type has dimension 2 (adjoints follow from the functor)
+    return tensor.Functor(ob, ar)
 
 
 def yankable_left(d):
@@ -145,6 +149,26 @@ def run(tier, seed=0, shard=(0, 1)):
                   Cap(x, x.l) @ Id(x) >> Id(x) @ Cup(x.l, x) >> ff >> Cup(x, x.r) @ Id(x) >> Cap(x.r, x) @ Id(x) >> gg):
             Fx = make_functor([ff, gg], seed)
             check(rep, d, Fx)
+        # snakes of both hands next to boxes with wide codomains (the obstruction is moved past the cap / cup by the third
+        # geometric branch of interchange), and several rewrite rounds in which the indices of the caps shift: a box between
+        # two snakes, a cap-shaped state after a snake, a second wire with an obstructing box
+        m_, p_, q_ = Ty('m'), Ty('p'), Ty('q')
+        wide = Box('wide', m_, x.r @ p_ @ q_)
+        narrow, wide2 = Box('narrow', Ty(), p_), Box('wide2', m_, q_ @ q_ @ q_)
+        st = Box('st', Ty(), x.r @ x)
+        snake_r = Cap(x.r, x) @ Id(x.r) >> Id(x.r) @ Cup(x, x.r)          # : x.r -> x.r
+        snake_l = Id(x) @ Cap(x.r, x) >> Cup(x, x.r) @ Id(x)              # : x -> x
+        rounds = [Cap(x.r, x) @ Id(m_) >> Id(x.r @ x) @ wide >> Id(x.r) @ Cup(x, x.r) @ Id(p_ @ q_),
+                  Id(m_) @ Cap(x, x.l) >> wide2 @ Id(x @ x.l) >> Id(q_ @ q_ @ q_) @ Box('k', x, x) @ Id(x.l),
+                  narrow @ Cap(x.r, x) @ Id(m_) >> Id(p_ @ x.r @ x) @ wide2 >> Id(p_ @ x.r @ x) @ Box('e3', q_ @ q_ @ q_, x.r)
+                  >> Id(p_ @ x.r) @ Cup(x, x.r),
+                  snake_r >> g >> snake_r, snake_l >> f >> snake_l, snake_l >> f >> snake_l >> f.dagger() >> snake_l,
+                  snake_r >> st @ Id(x.r) >> Id(x.r) @ Cup(x, x.r),
+                  snake_l @ Id(x) >> f @ f >> snake_l @ snake_l,
+                  Id(x) @ snake_r >> f @ g >> Id(x) @ snake_r >> Cup(x, x.r)]
+        Fw = make_functor(gens + [wide, narrow, wide2, st, Box('k', x, x), Box('e3', q_ @ q_ @ q_, x.r)], seed)
+        for d in rounds:
+            check(rep, d, Fw)
         # self-adjoint wires (rigid.PRO): a closed loop Cap >> Cup is a scalar (the dimension), not a snake
         p = rigid.PRO(1)
         u = Box('u', p, p)
